@@ -621,7 +621,7 @@ func predicateLeg(c *core.Ctx) (kept []predCase, rows [][]octosql.Value) {
 	rows = predRows(c.Rng("pred-rows"), 50)
 	db := &nodeh.DB{Tables: map[string]*nodeh.Table{"t": predTable(rows)}}
 	ctx := nodeh.Ctx()
-	n := c.Pick(1000, 50000)
+	n := c.Pick(1000, 30000)
 	reached := map[string]int{}
 	selfLeft := 3
 	// the rows in the layout of the filter's source schema, obtained by running the real source
